@@ -2,7 +2,8 @@
 # offline setup after a fresh restore: regenerate the extracted definitions, build model, proofs and driver
 set -e
 cd "$(dirname "$0")"
-export PYTHONPATH="/repo/src:$(pwd)/harness"
+export GBS_REPO="${GBS_REPO:-/repo}"
+export PYTHONPATH="$GBS_REPO/src:$(pwd)/harness"
 /venv/bin/python harness/extract.py
 cd lean
 lake build
